@@ -162,6 +162,12 @@ func (dec *Decoder) decodeWithPool(data []byte) (*DecodeResult, error) {
 	if len(data) == 0 {
 		return nil, nil
 	}
+	return dec.decodeNested(data)
+}
+
+// decodeNested always returns a result taken from the pool, also for empty data: a nested message
+// field that is present but empty is a message in which none of the requested tags occurs
+func (dec *Decoder) decodeNested(data []byte) (*DecodeResult, error) {
 	res, ok := dec.pool.Get().(*DecodeResult)
 	if !ok {
 		// This will only happen if the decoder was initialized outside of NewDecoder
